@@ -36,3 +36,7 @@ package tchannel
 //@   modifies all
 //@   ensures r != nil && r.conn == conn
 //@   property C08 C09
+
+// An outbound call's exchange, connection, logger and fragmenting writer are
+// set once, by beginCall, before the call is handed out.
+//@ structinv (call *OutboundCall) established beginCall : call.mex != nil && call.log != nil && call.conn != nil && call.contents != nil
